@@ -12,6 +12,8 @@ pub enum ElemKind {
     U64,
     TrInline,
     TrHeap,
+    /// u64 keys, 256-byte values
+    Big,
 }
 
 impl ElemKind {
@@ -20,6 +22,7 @@ impl ElemKind {
             ElemKind::U64 => "u64",
             ElemKind::TrInline => "tracked-inline",
             ElemKind::TrHeap => "tracked-heap",
+            ElemKind::Big => "u64-to-256B",
         }
     }
     pub fn parse(s: &str) -> Option<ElemKind> {
@@ -27,6 +30,7 @@ impl ElemKind {
             "u64" => ElemKind::U64,
             "tracked-inline" => ElemKind::TrInline,
             "tracked-heap" => ElemKind::TrHeap,
+            "u64-to-256B" => ElemKind::Big,
             _ => return None,
         })
     }
@@ -127,6 +131,7 @@ pub fn run_generated(cfg: &Cfg, gen: &mut Gen, transcript: bool, end_probe: bool
         ElemKind::U64 => run_gen_t::<u64, u64>(cfg, gen, transcript, end_probe),
         ElemKind::TrInline => run_gen_t::<Tr<false>, Tr<false>>(cfg, gen, transcript, end_probe),
         ElemKind::TrHeap => run_gen_t::<Tr<true>, Tr<true>>(cfg, gen, transcript, end_probe),
+        ElemKind::Big => run_gen_t::<u64, Big>(cfg, gen, transcript, end_probe),
     }
 }
 
@@ -146,6 +151,7 @@ pub fn run_ops(cfg: &Cfg, ops: &[Op]) -> Result<Stats, (Viol, usize)> {
         ElemKind::U64 => run_ops_t::<u64, u64>(cfg, ops),
         ElemKind::TrInline => run_ops_t::<Tr<false>, Tr<false>>(cfg, ops),
         ElemKind::TrHeap => run_ops_t::<Tr<true>, Tr<true>>(cfg, ops),
+        ElemKind::Big => run_ops_t::<u64, Big>(cfg, ops),
     }
 }
 
